@@ -33,6 +33,13 @@ def failing_edits(ns, rng, model):
                     [("input", sto, "storage_capacity", [1e-9, "TB"])]))
     for j in jobs:
         out.append(("negative-cumulative-storage", ("input", j, "data_stored", [-5000, "MB"]), []))
+    # the load raised by an IN-PLACE list method (the update then fails after the lists have been swapped)
+    for st in [x for x in efx.names_of(model, "UsageJourneyStep") if x in reach and model[x]["lst"]["jobs"]]:
+        j = model[st]["lst"]["jobs"][0]
+        s = model[j]["lnk"]["server"]
+        op = rng.choice(["extend", "iadd"])
+        out.append(("on-premise-fixed-count-by-list-mutation", ("listop", st, "jobs", op, [[j] * 6]),
+                    [("input", s, "ram", [4, "GB"]), ("opt", s, "server_type", "on-premise"), ("fix_at_current", s)]))
     rng.shuffle(out)
     return out
 
@@ -61,6 +68,12 @@ def run(tier, out):
             for label, edit, prereq in cands[: (3 if tier == "quick" else 6)]:
                 ok = True
                 for pe in prereq:
+                    if pe[0] == "fix_at_current":       # the fixed count is what the server needs right now
+                        nb = h.live[pe[1]].nb_of_instances
+                        if isinstance(nb, ns.EmptyExplainableObject):
+                            ok = False
+                            break
+                        pe = ("opt", pe[1], "fixed_nb", int(round(float(nb.value["value"].values._data.max()))))
                     ev = h.do(pe)
                     if ev["ev"] == "Raised":
                         ok = False
@@ -76,6 +89,8 @@ def run(tier, out):
                 # the previous value, to be re-assigned
                 if edit[0] == "input":
                     prev = ("input", edit[1], edit[2], list(h.model[edit[1]]["inp"][edit[2]]))
+                elif edit[0] == "listop":
+                    prev = ("list", edit[1], edit[2], list(h.model[edit[1]]["lst"][edit[2]]))
                 else:
                     prev = ("opt", edit[1], edit[2], h.model[edit[1]]["opt"][edit[2]])
                 n_fail = rng.choice([1, 1, 2])
